@@ -129,7 +129,10 @@ theorem parseModes_sim {c : Bytes} {ci : Id} : ∀ (modes : Bytes) (st : St) (S 
             simp only [h1, h4]
             exact ih _ _ op more (R_setP r h h2 h3 _) h
       · simp only [hp, Bool.false_eq_true, if_false]
-        exact ih st S op args r h
+        -- list modes b, e, I: untracked, but they consume one argument
+        by_cases hl : (x == 98 || x == 101 || x == 73) = true
+        · simp only [hl, if_true]; exact ih st S op args.tail r h
+        · simp only [hl, Bool.false_eq_true, if_false]; exact ih st S op args r h
 
 theorem sim_channelModes {st : St} {S : S} (r : R st S) (c modes : Bytes) (args : List Bytes) :
     Sim st S (.channelModes c modes args) := by
